@@ -14,7 +14,7 @@ Graph record (atoms listed by rank of their integer label -- for labels 0..n-1 r
 A graph whose labels are not integers has no record: `project` returns {"bad": reason}.
 """
 from __future__ import annotations
-import json
+import json, numbers
 
 TAG = "_vtag"          # unique per-atom tag attached by the drivers
 ETAG = "_vetag"        # unique per-bond tag
@@ -28,8 +28,8 @@ def _r(v):
         return "f:" + repr(v)
     if isinstance(v, bool):
         return "b:" + repr(v)
-    if isinstance(v, int):
-        return "i:" + repr(v)
+    if isinstance(v, numbers.Integral):
+        return "i:" + repr(int(v))
     if isinstance(v, str):
         return "s:" + v
     if isinstance(v, (tuple, list)):
@@ -57,15 +57,15 @@ def fingerprint(v):
 def _small(v, absent=0):
     if v is None:
         return absent
-    if isinstance(v, bool) or not isinstance(v, int):
+    if isinstance(v, bool) or not isinstance(v, numbers.Integral):
         return None
-    return fingerprint(v)
+    return fingerprint(int(v))          # integers of any integral type (numpy's included) are the number they stand for
 
 
 def _code(v):
     """the invariant code as a list of three numbers ([] when it is absent or something else)"""
-    if isinstance(v, (tuple, list)) and len(v) == 3 and all(isinstance(x, int) and not isinstance(x, bool) for x in v):
-        return [fingerprint(x) for x in v]
+    if isinstance(v, (tuple, list)) and len(v) == 3 and all(isinstance(x, numbers.Integral) and not isinstance(x, bool) for x in v):
+        return [fingerprint(int(x)) for x in v]
     return []
 
 
